@@ -67,7 +67,8 @@ RULE = ("(G) exhaustive: streams of <=2 (thorough <=3) events over a 7-letter al
 TRUSTED = ["json parsing and argparse glue of Acelyzer._parse_event_limit_type (the real parser is executed, not modelled)",
            "Python `re` outside the literal/anchor fragment (the matcher is a parameter of the theorems)",
            "str() rendering of non-string scalars is supplied by the harness"]
-ASSUMPTIONS = ["events reach normalize_phase1 in the order they are fed (end to end: one file, strictly increasing ts)",
+ASSUMPTIONS = ["events reach normalize_phase1 in the order they are fed (end to end: one file, one pid, strictly increasing ts; "
+               "the stages before normalize_phase1 leave such slices alone apart from adding args.rank / args.jobhash)",
                "no TS1 key in generated events (the 32-bit correction branch of normalize_phase1 belongs to C05)",
                "int(s, 0) is modelled for sign + 0x/0o/0b/decimal digit strings without '_' and blanks"]
 NOT_YET_PROVED = ["regex matching itself (abstract predicate; real `re` in the correspondence on the literal/anchor fragment)"]
@@ -319,15 +320,16 @@ def expected(case):
             fate[u] = "kept"
             continue
         n = o_normalised(e)
-        hit = False
-        for attr, rx in pairs:
+        hit, hit_last = False, False
+        for j, (attr, rx) in enumerate(pairs):
             t = o_lookup(n, attr.split("."))
             if t[0] == "ill":
                 return None
             if t[0] == "leaf" and re.search(rx, str(t[1])) is not None:
                 hit = True
+                hit_last = hit_last or all(a != attr for a, _ in pairs[j + 1:])
         if hit:
-            fate[u] = "filtered"
+            fate[u] = "filtered" if hit_last else "filtered-by-earlier-duplicate"
         else:
             kept.append(u)
             fate[u] = "kept"
@@ -338,7 +340,6 @@ def oracle(case, r):
     x = expected(case)
     if x is None:
         return None
-    dup = len({a for a, _ in o_pairs(case["filter"])}) != len(o_pairs(case["filter"]))
     if r["err"] != "none":
         return ("limit-filter-raises", f"well-typed input raises {r['err']}")
     got = [o[0] for o in r["out"]]
@@ -353,12 +354,11 @@ def oracle(case, r):
         return ("meta-counted-or-dropped", desc)
     if why in ("outside", "rank"):
         return ("limit-selection", desc)
+    if why == "filtered-by-earlier-duplicate":
+        return ("filter-duplicate-attribute", desc)
     if why == "filtered" or (why == "kept" and u not in got):
-        # a kept event can only be missing because of the limiter's count or the filter; decide by the ph / rank
         if why == "kept" and not case["filter"]:
             return ("limit-selection", desc)
-        if dup:
-            return ("filter-duplicate-attribute", desc)
         return ("filter-selection", desc)
     return ("limit-selection", desc)
 
@@ -465,7 +465,7 @@ def gen_limit(rng):
 
 
 def gen_stream(rng, n):
-    evs, t = [], Fraction(rng.randint(0, 16), 16)
+    evs, t = [], Fraction(rng.randint(0, 16), 16) if rng.random() < 0.85 else Fraction(rng.randint(-48, -8), 16)
     for u in range(1, n + 1):
         t += rng.choice([0, Fraction(1, 16), Fraction(1, 2), 1, 1, 2])
         ts = float(t) if rng.random() < 0.7 or t.denominator != 1 else int(t)
@@ -546,7 +546,7 @@ def gen_dup(ctx: Ctx):
 
 
 def gen_cases(ctx: Ctx):
-    for name, g in (("D", gen_dup), ("G", gen_grid), ("R", gen_random), ("B", gen_bad)):
+    for name, g in (("G", gen_grid), ("R", gen_random), ("B", gen_bad), ("D", gen_dup)):
         for c in g(ctx):
             yield name, c
 
@@ -613,7 +613,7 @@ def run(ctx: Ctx):
         ctx.count("oracle_decides", int(x is not None))
         if x is not None:
             for w in x["fate"].values():
-                ctx.count("fate_" + w)
+                ctx.count("fate_" + w.replace("-", "_"))
         if stream == "R" and (n_mono < ctx.n(400, 6000)):
             n_mono += 1
             m = oracle_monotone(case, r, ctx)
@@ -635,6 +635,7 @@ def run(ctx: Ctx):
             e["dur"] = max(e.get("dur", 1), 0.0625)
             if e["name"] == "DmaI":     # off-grammar for the FLEX classifier (C02 finding), not a C17 matter
                 e["name"] = "DmaX"
+            e["pid"] = evs[0]["pid"]    # one rank per file: ingestion rewrites every pid to the first one (C15)
         case = {"limit": gen_limit(rng), "filter": gen_filter(rng) if rng.random() < 0.6 else "", "events": evs}
         case["limit"].pop("no_count_types", None)
         x = expected(case)
